@@ -38,6 +38,7 @@ import (
 	"oras.land/oras-go/v2/errdef"
 	"oras.land/oras-go/v2/registry"
 	"oras.land/oras-go/v2/registry/remote"
+	"golang.org/x/sync/semaphore"
 	"verifharness/common"
 	"verifharness/dag"
 )
@@ -79,6 +80,7 @@ type Case struct {
 	Fast     bool          `json:"fast"`     // latencies are yields only (no sleeps): the small-scope enumeration
 	Sched    bool          `json:"sched"`    // run under testing/synctest with a PRNG-controlled scheduler
 	Thorough bool          `json:"thorough"` // generated with the thorough-tier size distribution
+	OwnLim   bool          `json:"ownlim"`   // CopyGraph through the verif hook with a limiter the harness created: its free permits are read at every event
 }
 
 var errInjected = errors.New("verif: injected callback failure")
@@ -111,6 +113,12 @@ type rec struct {
 	seed   uint64
 	always bool // every Mount finds the blob in the candidate repository
 	sched  *sched   // controlled schedules: every delay point parks until the scheduler releases it
+	// the copy's own limiter (Case.OwnLim): at every recorded event the free permits are counted; the operations
+	// in flight must be covered by the permits taken
+	lim      *semaphore.Weighted
+	limK     int
+	limProbe int    // events probed
+	limBad   string // first event at which more operations were in flight than permits taken
 }
 
 func (r *rec) node(d ocispec.Descriptor) int {
@@ -133,7 +141,27 @@ func (r *rec) ev(tok string, dsrc, ddst int) {
 	if r.dstIn > r.dstMax {
 		r.dstMax = r.dstIn
 	}
+	if r.lim != nil {
+		// still inside r.mu: no other task can record an event, and a task between two of its events keeps its permit
+		free := r.freePermits()
+		r.limProbe++
+		if taken := r.limK - free; r.limBad == "" && (r.srcIn > taken || r.dstIn > taken) {
+			r.limBad = fmt.Sprintf("at event %d (%s): %d source reads and %d destination operations in flight, but only %d of %d permits taken", len(r.toks)-1, tok, r.srcIn, r.dstIn, taken, r.limK)
+		}
+	}
 	r.mu.Unlock()
+}
+
+// freePermits counts the limiter's free permits (takes them all for an instant and gives them back).
+func (r *rec) freePermits() int {
+	f := 0
+	for f <= r.limK && r.lim.TryAcquire(1) {
+		f++
+	}
+	if f > 0 {
+		r.lim.Release(int64(f))
+	}
+	return f
 }
 
 // delay varies the interleaving: nothing, yields, or a short sleep.
@@ -459,6 +487,9 @@ type Result struct {
 	Keff     int
 	Root2    int // the root after MapRoot / platform selection (ground truth), -1 if the prologue must fail
 	SetupErr error
+	LimProbes int    // Case.OwnLim: events at which the limiter was read
+	LimBad    string // first event with more operations in flight than permits taken
+	LimFree   int    // free permits after the call returned (must be all of them)
 }
 
 // CbIsSet reports whether callback kind (pre post skip mounted mountfrom) is set in this case.
@@ -751,6 +782,14 @@ func Execute(c *Case) *Result {
 			if c.Mount {
 				d = dstWMount{dw}
 			}
+			if c.OwnLim {
+				// same call as CopyGraph makes, with a limiter of the size CopyGraph would create
+				r.mu.Lock()
+				r.lim, r.limK = semaphore.NewWeighted(int64(res.Keff)), res.Keff
+				r.mu.Unlock()
+				res.Err = oras.VerifCopyGraphWithLimiter(ctx, sw, d, g.Nodes[c.Root].Desc, r.lim, gopts)
+				break
+			}
 			res.Err = oras.CopyGraph(ctx, sw, d, g.Nodes[c.Root].Desc, gopts)
 		default:
 			opts := oras.CopyOptions{CopyGraphOptions: gopts}
@@ -819,6 +858,9 @@ func Execute(c *Case) *Result {
 		r.ev("RT.1", 0, 0)
 	} else {
 		r.ev("RT.0", 0, 0)
+	}
+	if r.lim != nil {
+		res.LimProbes, res.LimBad, res.LimFree = r.limProbe, r.limBad, r.freePermits()
 	}
 	res.Toks = r.toks
 	res.Pro = r.pro
